@@ -817,12 +817,14 @@ static void fam_c09_userheap_adopter(G& g, Plan& p) {
   int nleave = 2 + (int)g.below(3);
   int nt = 1 + nleave + 1;
   int per = 2 + (int)g.below(6);
-  p.nslots = nleave * per + 60; p.progs.resize((size_t)nt);
+  const bool crowded = g.chance(0.4);
+  p.nslots = nleave * per + 60 + nleave * 27; p.progs.resize((size_t)nt);
   Program& P0 = p.progs[0];
   for (int t = 1; t <= nleave; t++) P0.ops.push_back(mk(OP_spawn, t));
   for (int t = 1; t <= nleave; t++) {
     Program& P = p.progs[(size_t)t]; P.explicit_done = g.chance(0.5);
     for (int i = 0; i < per; i++) P.ops.push_back(mk(OP_malloc, (t - 1) * per + i, g.chance(0.7) ? 500 + g.below(2000) : gen_size(g, SM_SMALL | SM_MEDIUM)));
+    if (crowded) for (int i = 0; i < 27; i++) P.ops.push_back(mk(OP_malloc, p.nslots - 1 - ((t - 1) * 27 + i), 1 * MiB + g.below(64 * KiB)));   // the segment has no room left for a large page: a visit uses up a try without adopting it
     P.ops.push_back(mk(OP_barrier, 1, (uint64_t)nleave));     // several distinct abandoned segments exist at the same time
   }
   for (int t = 1; t <= nleave; t++) P0.ops.push_back(mk(OP_join, t));
